@@ -49,7 +49,8 @@ Inductive fs_op :=
 | Mkdirs (p : path)                     (* os.makedirs(p, exist_ok=True) / Path.mkdir(parents=True, exist_ok=True) *)
 | Rmtree (p : path)                     (* shutil.rmtree(p) when p exists *)
 | Stash (p : path)                      (* saved = p.read_bytes() if p.exists() else None *)
-| Unstash (p : path).                   (* if saved is not None: p.write_bytes(saved) *)
+| Unstash (p : path)                    (* if saved is not None: p.write_bytes(saved) *)
+| Rewrite (p : path).                   (* a child process (ruff) rewrites the existing file p in place: content not modelled, no audit event *)
 
 (* the Python local variable that carries the saved bytes: a slot that is no directory entry
    (the empty path lies below no non-empty root) *)
@@ -73,6 +74,7 @@ Definition apply_op (s : fs) (op : fs_op) : fs :=
       | Some e => set (filter (fun kv => negb (path_eqb (fst kv) mem_slot)) s) p e
       | None => s
       end
+  | Rewrite _ => s
   end.
 
 (* what the audit hook sees (directory creation is compared through the final tree instead) *)
@@ -86,6 +88,7 @@ Definition op_events (s : fs) (op : fs_op) : list (kind * path) :=
   | Rmtree p => if exists_b s p then [(D, p)] else []
   | Stash _ => []
   | Unstash p => if exists_b s mem_slot then [(W, p)] else []
+  | Rewrite _ => []
   end.
 (* every path created, rewritten or removed by the operation *)
 Definition op_touched (s : fs) (op : fs_op) : list path :=
@@ -97,6 +100,7 @@ Definition op_touched (s : fs) (op : fs_op) : list path :=
   | Rmtree p => map fst (filter (fun kv => under p (fst kv)) s)
   | Stash _ => []
   | Unstash p => if exists_b s mem_slot then [p] else []
+  | Rewrite p => if exists_b s p then [p] else []
   end.
 
 Definition rebase (b : path) (op : fs_op) : fs_op :=
@@ -108,6 +112,7 @@ Definition rebase (b : path) (op : fs_op) : fs_op :=
   | Rmtree p => Rmtree (b ++ p)
   | Stash p => Stash (b ++ p)
   | Unstash p => Unstash (b ++ p)
+  | Rewrite p => Rewrite (b ++ p)
   end.
 
 (* ---------- configuration of one generate call ---------- *)
@@ -188,7 +193,7 @@ Definition endpoints_ops (c : config) : list fs_op :=
 
 (* operations of one stage, relative to the base (temporary root in the diff path, project root
    otherwise); [diff] = the diff path was taken *)
-Definition rel_effects (c : config) (diff : bool) (st : stage) : list fs_op :=
+Definition rel_effects_gen (c : config) (diff : bool) (st : stage) : list fs_op :=
   let o := rel_out c in
   let k := rel_core c in
   match st with
@@ -224,6 +229,20 @@ Definition rel_effects (c : config) (diff : bool) (st : stage) : list fs_op :=
          ++ [Write [s_mocks; s_endpoints; s_init] 0; Write [s_mocks; s_mock_client] 0; Write [s_mocks; s_init] 0])
   | RichInit =>   (* _write_client_init: in both paths when a core package was given *)
       match core_pkg c with Some _ => [Write (o ++ [s_init]) 0] | None => [] end
+  end.
+
+(* post-processing: PostprocessManager.run is handed the LIST of files returned by the emitters and gives
+   ruff exactly the *.py files of that list (never a directory) *)
+Definition is_py (p : path) : bool := suffixb s_dot_py (last p []).
+Definition written_path (op : fs_op) : list path :=
+  match op with Write p _ | WriteIfAbsent p _ => [p] | _ => [] end.
+Definition gen_stages : list stage := [Exceptions; Core; Models; Endpoints; Client; Mocks; RichInit].
+Definition post_targets (c : config) (diff : bool) : list path :=
+  filter is_py (flat_map written_path (flat_map (rel_effects_gen c diff) gen_stages)).
+Definition rel_effects (c : config) (diff : bool) (st : stage) : list fs_op :=
+  match st with
+  | Post => map Rewrite (post_targets c diff)
+  | _ => rel_effects_gen c diff st
   end.
 
 (* absolute operations: the relative ones rebased.  Post-processing (ruff, run with --no-cache) rewrites
@@ -283,7 +302,6 @@ Fixpoint touched (s : fs) (pl : list (stage * fs_op)) : list path :=
 
 (* _show_diffs(old, new): some *.py below new is missing below old or has different bytes there, or some
    *.py below old has no counterpart below new *)
-Definition is_py (p : path) : bool := suffixb s_dot_py (last p []).
 Definition diff_dir (s : fs) (old new : path) : bool :=
   existsb (fun kv =>
     match snd kv with
@@ -346,7 +364,7 @@ Definition io_cut (name : str) (s : fs) (op : fs_op) : option (list fs_op) :=
       | None => None
       end
   | Unstash p => if exists_b s mem_slot && base_matches name p then Some [] else None
-  | Remove _ | Rmtree _ | Stash _ => None
+  | Remove _ | Rmtree _ | Stash _ | Rewrite _ => None
   end.
 (* (ModelsEmitter._generate_model_file logs the exception and re-raises it.) *)
 Record io_result := { io_ops : list (stage * fs_op); io_hit : option stage }.
